@@ -146,6 +146,11 @@ def colour_of(transparent, vx, vy):
     return (vx % 256, vy % 256, (vx * 7 + vy * 13) % 255, 1 + (vx + 3 * vy) % 254 if transparent else 255)
 
 
+def overlay_colour(vx, vy):
+    """picture kind 'holes': the colour of an opaque cell, None for a fully transparent cell"""
+    return (vx % 256, vy % 256, 255, 255) if (vx + vy) % 2 == 0 else None
+
+
 class Picture:
     """The upstream picture: a function of ground position only.  The q-cell containing a ground point (counted from
     the lower left grid corner, index mod 4093 per axis) decides the value; an image of (bbox, size) samples the
@@ -189,6 +194,12 @@ class Picture:
             for vy in ys:
                 for vx in xs:
                     buf += bytes(colour_of(False, vx, vy))
+            return Image.frombytes('RGBA', (w, h), bytes(buf))
+        if self.kind == 'holes':
+            # an overlay: half of the cells opaque (blue 255: never a colour of the other kinds), the others fully transparent
+            for vy in ys:
+                for vx in xs:
+                    buf += bytes(overlay_colour(vx, vy) or (0, 0, 0, 0))
             return Image.frombytes('RGBA', (w, h), bytes(buf))
         if self.kind == 'rgbt':
             # true colour with one colour marked transparent (PNG colour type 2 + tRNS): a third of the cells
@@ -545,6 +556,35 @@ def run_manager(gc, picture, cfg, coords, cache=None, rendezvous=None, fault_at=
     return steps, served, has_meta, None
 
 
+def run_layered_manager(gc, pictures, coverages, cfg, coords):
+    """A real TileManager over several sources (bottom first), each with its own picture and optional clipping coverage
+    (BBOXCoverage, clip=True); transparent cache.  Returns ({coord: stored image}, [(coord, served image)], has_meta, error)."""
+    from mapproxy.cache.tile import TileManager
+    from mapproxy.cache.dummy import DummyLocker
+    from mapproxy.image.opts import ImageOptions
+    from mapproxy.util.coverage import BBOXCoverage
+    from mapproxy.srs import SRS
+    opts = ImageOptions(transparent=True, format='image/png', mode='RGBA')
+    events, lock = [], threading.Lock()
+    sources = []
+    for pic, cov in zip(pictures, coverages):
+        up = Upstream(pic, events, lock, ImageOptions(transparent=True, format='image/png', mode='RGBA'))
+        if cov is not None:
+            up.coverage = BBOXCoverage(tuple(float(v) for v in cov), SRS(3857), clip=True)
+        sources.append(up)
+    cache = RecordingCache(events, lock)
+    try:
+        tm = TileManager(gc.grid, cache, sources, 'png', DummyLocker(), image_opts=opts,
+                         meta_size=cfg['meta_size'], meta_buffer=cfg['meta_buffer'],
+                         minimize_meta_requests=cfg.get('minimize', False), bulk_meta_tiles=False, concurrent_tile_creators=1)
+        result = tm.load_tile_coords([tuple(c) for c in coords])
+        served = [(t.coord, None if t.source is None else t.source.as_image().copy()) for t in result]
+        has_meta = tm.meta_grid is not None
+    except Exception as e:  # noqa
+        return None, None, None, '%s: %s' % (type(e).__name__, e)
+    return dict((c, v[0]) for c, v in cache.stored.items()), served, has_meta, None
+
+
 def gated_grid(spec):
     """The same grid built through a TileGrid subclass whose tile_bbox() passes a gate first (schedule control:
     tile_bbox is the only call MetaGrid.meta_tile makes outside its own class)."""
@@ -845,6 +885,28 @@ def load_corpus():
 # fixed probes (h): 32x32 tiles of an 'rgb' picture with one cell per pixel = 1024 colours per tile (more than a palette
 # holds); level 2 is 8x4 tiles, level 1 4x2
 BASE_CONFIG_GRID = {'tile_size': [32, 32], 'res': [40, 20, 10], 'bbox': [0, 0, 2560, 1280], 'origin': 'll'}
+
+
+# fixed probes (u): 8x8 tiles, level 0 is 8x4 tiles of 80 ground units; a cache over two sources (run_layers).  The
+# meta tiles reach from inside a coverage across its border to tiles the coverage does not touch (there the source is
+# blank when the tile is fetched alone).
+LAYERS_GRID = {'tile_size': [8, 8], 'res': [10], 'bbox': [0, 0, 640, 320], 'origin': 'll'}
+
+
+def _ly(coverages, tiles, meta_size=(2, 2), minimize=False):
+    return {'level': 0, 'layers': {'config': {'meta_size': list(meta_size), 'meta_buffer': 0, 'minimize': minimize, 'coverages': coverages},
+                                   'tiles': [list(t) for t in tiles]}}
+
+
+LAYERS_PROBES = [
+    # base map limited to the west (border in the middle of tile column 4), overlay everywhere
+    _ly([[0.0, 0.0, 360.0, 320.0], None], [(4, 2, 0)]),
+    _ly([[0.0, 0.0, 360.0, 320.0], None], [(2, 0, 0), (5, 1, 0)], meta_size=(4, 2)),
+    # overlay limited to a box, base map everywhere
+    _ly([None, [100.0, 50.0, 290.0, 200.0]], [(2, 1, 0)], meta_size=(3, 3)),
+    # both limited, the coverages overlap in part
+    _ly([[0.0, 0.0, 360.0, 170.0], [200.0, 100.0, 640.0, 320.0]], [(3, 1, 0), (4, 2, 0)], meta_size=(2, 2), minimize=True),
+]
 
 
 def _bc(cache_opts, glob, tiles, level=2, meta_size=(2, 2), concurrent=2, minimize=False):
@@ -1148,6 +1210,90 @@ def run(ctx):
                     add('clip', '(%s, %d, %s, %s, %s, %d, %d, Some (%d, %d, %d, %d))' % (
                         (mgl, q, how, blit(inside), coord_lit(coord), j, k) + tuple(got[k][j])),
                         dict(rep, tile=coord, pixel=(j, k), inside_coverage=inside, rgba=got[k][j]))
+
+    def run_layers(gc, level, spec):
+        """a transparent cache over two sources: an opaque base map below (picture kind rgba1) and an overlay with fully
+        transparent cells on top (kind holes), each with an optional clipping coverage.  Every tile of the meta tile -
+        inside, across and outside the coverages - is the same image as the tile fetched alone (where a source whose
+        coverage the tile does not touch is blank and drops out of the merge), and both show, two pixels or more away
+        from a coverage border, overlay over base map over transparent background."""
+        cfg = spec['config']
+        coords = [tuple(c) for c in spec['tiles']]
+        covs = [([frac(v) for v in c] if c else None) for c in cfg['coverages']]
+        r = gc.res[level]
+        q = int(r * gc.S)
+        pictures = [Picture(gc, q, 'rgba1'), Picture(gc, q, 'holes')]
+        rep = {'grid': gc.spec, 'config': cfg, 'level': level, 'tiles': [list(c) for c in coords],
+               'picture': 'two sources: opaque base map below, overlay with transparent cells on top; transparent cache'}
+        stored, served, has_meta, err = run_layered_manager(gc, pictures, cfg['coverages'], cfg, coords)
+        ctx.count('layers')
+        ctx.case(('layers', json.dumps(rep, sort_keys=True)), True, dict(rep, stored=sorted(stored or {})[:6]) if len(ctx.samples) < 8 else None)
+        if err is not None:
+            ctx.fail('tile-manager-raises', 'TileManager (two sources) raised %s' % err, rep)
+            return
+
+        def norm(img):
+            # the colour of a fully transparent pixel is invisible
+            return [[(px if px[3] else (0, 0, 0, 0)) for px in row] for row in pictures[0].decode(img.convert('RGBA'))]
+
+        def expected(coord, j, k):
+            """colour of pixel (j, k) of the tile, None when it is nearer than two pixels to a coverage border"""
+            rect = gc.tile_rect(coord[0], coord[1], level)
+            px0, px1 = rect[0] + j * r, rect[0] + (j + 1) * r
+            py1, py0 = rect[3] - k * r, rect[3] - (k + 1) * r
+            xs, ys = pictures[0].cells((float(px0), float(py0), float(px1), float(py1)), (1, 1))
+            out = (0, 0, 0, 0)
+            for i, cov in enumerate(covs):
+                if cov is not None:
+                    inside = px0 >= cov[0] + 2 * r and px1 <= cov[2] - 2 * r and py0 >= cov[1] + 2 * r and py1 <= cov[3] - 2 * r
+                    outside = px1 <= cov[0] - 2 * r or px0 >= cov[2] + 2 * r or py1 <= cov[1] - 2 * r or py0 >= cov[3] + 2 * r
+                    if not (inside or outside):
+                        return None
+                    if outside:
+                        continue
+                col = colour_of(False, xs[0], ys[0]) if i == 0 else overlay_colour(xs[0], ys[0])
+                if col is not None:
+                    out = col
+            return out
+
+        def check_expected(coord, rows, what):
+            for k in range(len(rows)):
+                for j in range(len(rows[k])):
+                    exp = expected(coord, j, k)
+                    if exp is not None:
+                        ctx.count('layers:pixel_compared_with_expected_merge')
+                        if rows[k][j] != exp:
+                            ctx.fail('layer-merge-wrong',
+                                     'tile %r %s: pixel (%d, %d) is %r, overlay over base map (each inside its coverage) is %r' % (
+                                         coord, what, j, k, rows[k][j], exp), dict(rep, tile=coord, pixel=(j, k)))
+                            return
+
+        for c, img in served:
+            if img is None:
+                ctx.fail('requested-tile-not-produced', 'tile %r is answered without image (the overlay covers everything)' % (c,), rep)
+            elif c in stored and norm(img) != norm(stored[c]):
+                ctx.fail('served-differs-from-stored', 'tile %r: served and stored image differ' % (c,), dict(rep, tile=c))
+        for coord in sorted(stored):
+            rows = norm(stored[coord])
+            check_expected(coord, rows, 'cut out of its meta tile' if has_meta else 'fetched alone')
+            key = (gc.name, coord, 'layers', json.dumps(cfg['coverages']))
+            if key not in ref_cache:
+                scfg = {'meta_size': None, 'meta_buffer': None, 'coverages': cfg['coverages']}
+                st, sv, hm, er = run_layered_manager(gc, pictures, cfg['coverages'], scfg, [coord])
+                ref_cache[key] = st.get(coord) if er is None else None
+            ref = ref_cache[key]
+            if ref is None:
+                ctx.fail('single-tile-fetch-fails', 'tile %r fetched alone through the two sources is not produced' % (coord,), dict(rep, tile=coord))
+                continue
+            ref_rows = norm(ref)
+            check_expected(coord, ref_rows, 'fetched alone')
+            ctx.count('layers:compared_with_tile_fetched_alone')
+            if rows != ref_rows:
+                where = [(j, k) for k in range(len(rows)) for j in range(len(rows[k])) if rows[k][j] != ref_rows[k][j]][:1]
+                ctx.fail('tile-differs-from-tile-fetched-alone',
+                         'two sources: tile %r cut out of a meta tile differs from the tile fetched alone, first at %r: %r / %r' % (
+                             coord, where, where and rows[where[0][1]][where[0][0]], where and ref_rows[where[0][1]][where[0][0]]),
+                         dict(rep, tile=coord))
 
     def run_encoded(gc, level, spec=None):
         """what a real cache backend stores (the encoded bytes of tile.source.as_buffer(), lossless options) for an
@@ -1457,6 +1603,8 @@ def run(ctx):
             run_base_config(gc, item['level'], item['base_config'])
         elif 'clip' in item:
             run_clip(gc, item['level'], spec=item['clip'])
+        elif 'layers' in item:
+            run_layers(gc, item['level'], item['layers'])
         elif 'faults' in item:
             run_faults(gc, item['level'], item.get('picture', 'cells'), spec=item['faults'])
         elif 'concurrent_requests' in item:
@@ -1480,6 +1628,11 @@ def run(ctx):
     bc_grid = new_grid(BASE_CONFIG_GRID)
     for item in BASE_CONFIG_PROBES:
         run_base_config(bc_grid, item['level'], item['base_config'])
+
+    # ---- fixed probes: a cache over two sources with clipping coverages (independent of the seed)
+    ly_grid = new_grid(LAYERS_GRID)
+    for item in LAYERS_PROBES:
+        run_layers(ly_grid, item['level'], item['layers'])
 
     n_grids = ctx.n(14, 70)
     for _ in range(n_grids):
